@@ -357,7 +357,16 @@ func (r *Reader) parseWorksheet(data []byte, name string, index int) (*Sheet, er
 			case "inlineStr": // Inline string
 				cell.Type = CellTypeString
 				if cellXML.Is != nil {
-					cell.Value = cellXML.Is.T
+					if cellXML.Is.T != "" {
+						cell.Value = cellXML.Is.T
+					} else {
+						// Rich text - concatenate all runs, as for shared strings
+						var text strings.Builder
+						for _, run := range cellXML.Is.R {
+							text.WriteString(run.T)
+						}
+						cell.Value = text.String()
+					}
 				}
 			default: // Number or empty
 				if cellXML.V != "" {
